@@ -33,7 +33,8 @@ PRELUDE = [
 INT_LVALUES = ["g1", "g2", "a", "b", "garr[1]", "garr[a & 7]", "s1.a", "sp->a", "s1.in.c", "sp->arr[2]", "un.i", "loc", "*ip", "larr[1]"]
 INT_ATOMS = INT_LVALUES + ["1", "2", "7", "0x1F", "017", "3u", "5L", "'a'", "K1", "K2", "s1.b", "(int) l1", "sizeof(int)", "sizeof s1",
                            "sf(a)", "two(a, b)", "fp(2)", "fparr[1](3)", "(*fp)(1)", "(int){4}", "((struct S){ .a = 9 }).a", "_Alignof(long)",
-                           "(a, b)", "t1", "(int) 2.5", "(int) u1", "msg[0]"]
+                           "(a, b)", "t1", "(int) 2.5", "(int) u1", "msg[0]",
+                           "((struct S *) sp)->a", "((int *) larr)[1]", "((int (*)(int)) fp)(2)", "((char *) msg)[0]", "((struct S *) sp)->arr[1]", "(*(struct S *) sp).a", "((int *) ip)[0]++"]
 BIN = ["+", "-", "*", "&", "|", "^", "<<", "<", ">", "<=", ">=", "==", "!=", "&&", "||"]
 DIVS = ["/", "%"]
 ASSIGN = ["=", "+=", "-=", "*=", "&=", "|=", "^=", "<<=", ">>="]
